@@ -1,13 +1,13 @@
 NP = "np_packet_h"
-_REQ = [("header", "0..48"), ("uid_hdr", "48..52"), ("uid_body", "52..84"), ("cookie_hdr", "84..88"), ("cookie_body", "88..104"),
-        ("auth_words", "104..112"), ("auth_body", "112..144"), ("trailer", "144..148")]
-_RESP = [("header", "0..48"), ("uid_hdr", "48..52"), ("uid_body", "52..84"), ("auth_words", "84..92"), ("auth_body", "92..144"), ("trailer", "144..148")]
+_REQ = [("header", "0..48"), ("uid_hdr", "48..52"), ("uid_body", "52..60"), ("cookie_hdr", "60..64"), ("cookie_body", "64..72"),
+        ("auth_words", "72..80"), ("auth_body", "80..112"), ("trailer", "112..116")]
+_RESP = [("header", "0..48"), ("uid_hdr", "48..52"), ("uid_body", "52..60"), ("auth_words", "60..68"), ("auth_body", "68..112"), ("trailer", "112..116")]
 PROP = dict(
     functions=[
         "ntp_proto::packet::NtpPacket::deserialize<{ProbeCipher, ModelCipher}> (v4 path), NtpPacket::{nts_poll_message, serialize<ModelCipher>} (c25_*_real_serializer)",
         "ntp_proto::packet::extension_fields::{ExtensionFieldData::{deserialize,serialize}, ExtensionField::encode_encrypted, RawEncryptedField::{from_message_bytes,decrypt}}",
     ],
-    bounds="NTPv4. Request image = header (byte 0 = 0x23, the other 47 bytes arbitrary) + 32-byte unique id field + 16-byte cookie field + authenticator written by the real ExtensionField::encode_encrypted with the ideal-AEAD ModelCipher (arbitrary nonce and tag) + 4 arbitrary trailer bytes (148 bytes); response image = header (byte 0 = 0xE4) + unique id field + authenticator over one 16-byte new cookie + trailer. c25_*_real_serializer: NtpPacket::serialize of nts_poll_message(16-byte cookie, 1) / of the corresponding response packet produces exactly these images. Tampering: XOR of an arbitrary non-zero mask (all 255: every single-bit and single-byte change) into the byte at an arbitrary position, one harness per region. Decomposition (the decoder depends on the cipher only through decrypt's return value): tamper harnesses decode with a recording, always-refusing cipher and decide outside the decoder whether the ideal AEAD would have accepted the recorded (associated data, nonce, ciphertext) triple; region A: never the logged triple and nothing authentic is reported; region C: exactly the logged triple; the accepting behaviour (lists == original content) is decided with the accepting ModelCipher by c25_untampered and c25_*_trailer_accept.",
+    bounds="NTPv4. Tamper images use an 8-byte unique id and an 8-byte cookie (116 bytes; with the 32/16-byte sizes of the real client the solver runs out of memory at 12 GB, measured; both bodies are opaque to the decoder). Request image = header (byte 0 = 0x23, the other 47 bytes arbitrary) + unique id field + cookie field + authenticator written by the real ExtensionField::encode_encrypted with the ideal-AEAD ModelCipher (arbitrary nonce and tag) + 4 arbitrary trailer bytes; response image = header (byte 0 = 0xE4) + unique id field + authenticator over one new cookie + trailer. c25_*_real_serializer: NtpPacket::serialize of nts_poll_message(16-byte cookie, 1) (32-byte unique id) / of the corresponding response packet produces exactly the image built by the same assembly functions (instantiated with 32/16). Tampering: XOR of an arbitrary non-zero mask (all 255: every single-bit and single-byte change) into the byte at an arbitrary position, one harness per region. Decomposition (the decoder depends on the cipher only through decrypt's return value): tamper harnesses decode with a recording, always-refusing cipher and decide outside the decoder whether the ideal AEAD would have accepted the recorded (associated data, nonce, ciphertext) triple; region A: never the logged triple and nothing authentic is reported; region C: exactly the logged triple; the accepting behaviour (lists == original content) is decided with the accepting ModelCipher by c25_untampered and c25_*_trailer_accept.",
     outside="real AES-SIV (idealised, DESIGN 2.6); NTPv5 NTS packets; requests with placeholders; server-side cookie recovery through KeySet (with client keys the returned cookie is observed to be None; KeySet::get/decode_cookie are exercised by C23/C26); changes of more than one byte; region B (the authenticator's own four words) with the accepting cipher: shown is that the AEAD is asked either about the logged triple or about something it refuses, and that a refusal reports nothing authentic",
     assumptions=["ideal AEAD: decrypt succeeds iff key, associated data, nonce and ciphertext||tag are exactly what encrypt recorded"],
     stub_notes=[
